@@ -704,6 +704,8 @@ def summary_of_trace(trace):
             te[node], st[node] = e["t"], 3
         elif k == "cancel-raise":
             te[node], st[node], res[node] = e["t"], 2, (2, node)
+        elif k == "self-cancel":
+            te[node], st[node] = e["t"], 4
         elif k == "run-end":
             te[node], st[node], res[node] = e["t"], 1, ((3, 0) if e["v"] == "true" else (4, 0))
         elif k == "run-exc":
